@@ -27,6 +27,8 @@ import SF.Proofs.FuIdTop
 import SF.Proofs.FuIdStructTop
 import SF.Proofs.FuIdStruct2Top
 import SF.Proofs.FuCborTop
+import SF.Proofs.FuUbjTop
+import SF.Proofs.FuJsonTop
 namespace SF.Props.C11
 open SF SF.Unf
 
@@ -540,3 +542,182 @@ example :
   decide +kernel
 
 end SF.PropsFuCbor.C11
+
+
+/-! ## C11 through the UBJSON path: Fold → UBJSON encoder → bytes → UBJSON parser → Unfolder (scalars, `[]T`), every
+value the format can carry: a uint64 / uint above MaxInt64 is written as a high-precision number and comes back as a
+STRING, which a numeric target refuses — the recorded known finding KF-ubj-uint64-above-maxint64, here as the explicit
+side condition `fitsV` and the kernel-evaluated counterexamples `uint64_above_maxint64_refused`,
+`slice_one_big_element_refused`.  The chunked / reader clauses carry the fuel proviso of C02's `ubj_chunk_independent`.
+Proof files SF/Proofs/FuUbj{Codec,Run,Slice,Top}.lean. -/
+namespace SF.PropsFuUbj.C11
+open SF SF.Gotype SF.Gotype.Fold SF.FoldProofs SF.FuId SF.FuCbor SF.FuUbj SF.Props.FuUbj
+open SF.Ubjson
+open SF.Unf (Ctx newUnfolder setTarget)
+open SF.Ops.Unf (evToUEv)
+open SF.Ops.Fu (feed agreeF)
+
+/-- STAGE 1 — scalars (`primTy p`: bool, string, int8 … int64, int, uint8 … uint64, uint, float32,
+float64), every value `v` of the type that UBJSON can carry (`fitsV`). -/
+theorem fold_ubj_unfold_scalar (o : FoldOpts) (hfail : o.failAt = none) (p : Prim) (v : GoVal)
+    (hv : hasPrim p v = true) (hz : sizedV v = true) (hf : fitsV v = true) :
+    ∃ ut c0 c1 s pr,
+      Unf.Tr.trType (primTy p) = some ut ∧
+      setTarget Unf.Tr.fuTable ut (Unf.zero Unf.Tr.fuTable ut) newUnfolder = .ok c0 ∧
+      (impl o (primTy p) v).res = .ok ∧
+      Enc.run {} (impl o (primTy p) v).evs = (s, none) ∧ s.w.out ≠ [] ∧
+      Parse.parse {} s.w.out = (pr, none) ∧ Idle pr ∧
+      (∀ cs : List Bytes, cs.flatten = s.w.out → (Parse.writeChunks {} cs).2 ≠ some .outOfFuel →
+        Parse.writeChunks {} cs = (pr, none)) ∧
+      (s.w.out.length ≤ 32768 → SF.Ops.Ubjson.parseEvents [s.w.out] = (Parse.events pr, "ok")) ∧
+      ((Parse.parseReader (Parse.init none) [s.w.out]).2 ≠ some .outOfFuel →
+        SF.Ops.Ubjson.parseEvents [s.w.out] = (Parse.events pr, "ok")) ∧
+      Parse.events pr = [scEv (ubjSc (scOfTop p v))] ∧
+      feed c0 ((Parse.events pr).map fun e => [evToUEv e]) = (c1, none) ∧
+      c1.target = trPrim p v ∧
+      c1 = { newUnfolder with target := trPrim p v, env := Unf.Tr.fuTable } ∧
+      back c1.target = v ∧
+      agreeF "ubjson" 1000 (primTy p) v (back c1.target) = true ∧
+      (∀ path, (path == "json") = false → agreeF path 1000 (primTy p) v (back c1.target) = true) :=
+  SF.Props.FuUbj.fold_ubj_unfold_scalar o hfail p v hv hz hf
+
+/-- STAGE 2 — `[]T`, `T` scalar: nil, empty, or any elements `xs`, each of which UBJSON can carry.
+Fold's ONE typed-array event is written as `[]` (empty), a counted array (`[]bool`) or a typed
+container `[$t#n payloads`; the parser reports `OnArrayStart`, the elements under ONE kind,
+`OnArrayFinished`; nil and empty both come back as nil (`sliceFin`). -/
+theorem fold_ubj_unfold_slice (o : FoldOpts) (hfail : o.failAt = none) (p : Prim) (v : GoVal) (xs : List GoVal)
+    (hv : sliceElems? v = some xs) (hxs : ∀ x ∈ xs, hasPrim p x = true)
+    (hz : ∀ x ∈ xs, sizedV x = true) (hf : ∀ x ∈ xs, fitsV x = true) (hn : xs.length < 9223372036854775808) :
+    ∃ ut c0 c1 s pr,
+      Unf.Tr.trType (.slice (primTy p)) = some ut ∧
+      setTarget Unf.Tr.fuTable ut (Unf.zero Unf.Tr.fuTable ut) newUnfolder = .ok c0 ∧
+      (impl o (.slice (primTy p)) v).res = .ok ∧
+      Enc.run {} (impl o (.slice (primTy p)) v).evs = (s, none) ∧ s.w.out ≠ [] ∧
+      Parse.parse {} s.w.out = (pr, none) ∧ Idle pr ∧
+      (∀ cs : List Bytes, cs.flatten = s.w.out → (Parse.writeChunks {} cs).2 ≠ some .outOfFuel →
+        Parse.writeChunks {} cs = (pr, none)) ∧
+      (s.w.out.length ≤ 32768 → SF.Ops.Ubjson.parseEvents [s.w.out] = (Parse.events pr, "ok")) ∧
+      ((Parse.parseReader (Parse.init none) [s.w.out]).2 ≠ some .outOfFuel →
+        SF.Ops.Ubjson.parseEvents [s.w.out] = (Parse.events pr, "ok")) ∧
+      Parse.events pr = (if xs.isEmpty then [.arrStart (-1) BT.any, .arrEnd]
+        else .arrStart xs.length (ubjBT p xs) :: (xs.map (ubjElem p xs)).map scEv ++ [.arrEnd]) ∧
+      feed c0 ((Parse.events pr).map fun e => [evToUEv e]) = (c1, none) ∧
+      c1.target = (if xs.isEmpty then .sliceNil (uPrimTy p) else .slice (uPrimTy p) (xs.map (trPrim p)) []) ∧
+      c1 = { newUnfolder with target := c1.target, env := Unf.Tr.fuTable } ∧
+      back c1.target = (if xs.isEmpty then .nilSlice else .slice xs) ∧
+      agreeF "ubjson" 1000 (.slice (primTy p)) v (back c1.target) = true ∧
+      (∀ path, (path == "json") = false → agreeF path 1000 (.slice (primTy p)) v (back c1.target) = true) :=
+  SF.Props.FuUbj.fold_ubj_unfold_slice o hfail p v xs hv hxs hz hf hn
+
+/-- WHY `fitsV` CANNOT BE DROPPED (scalars): `uint64(2^63)` is a value of its type (`hasPrim`), not
+above any size bound (`sizedV`); the encoder accepts it and writes `H` + its 19 decimal digits, the
+parser accepts the bytes and delivers ONE STRING event, which the `uint64` target refuses: the
+pipeline yields no value (the model prints `-|err:parse`) -/
+theorem uint64_above_maxint64_refused :
+    hasPrim (.num .u64) (.int 9223372036854775808) = true ∧ sizedV (.int 9223372036854775808) = true ∧
+    fitsV (.int 9223372036854775808) = false ∧
+    (Enc.run {} (impl {} (.int .u64) (.int 9223372036854775808)).evs).1.w.out =
+      [0x48, 0x69, 19, 57, 50, 50, 51, 51, 55, 50, 48, 51, 54, 56, 53, 52, 55, 55, 53, 56, 48, 56] ∧
+    wireEvents {} (.int .u64) (.int 9223372036854775808) =
+      [.str [57, 50, 50, 51, 51, 55, 50, 48, 51, 54, 56, 53, 52, 55, 55, 53, 56, 48, 56]] ∧
+    (pipe {} (.int .u64) (.int 9223372036854775808)).isSome = false :=
+  SF.Props.FuUbj.uint64_above_maxint64_refused 
+
+/-- … (slices): ONE element above MaxInt64 makes the encoder choose the element type `H` for the
+whole container: every element — also `5` — arrives as a string, and the `[]uint64` target refuses -/
+theorem slice_one_big_element_refused :
+    (∀ x ∈ [GoVal.int 5, .int 9223372036854775808], hasPrim (.num .u64) x = true) ∧
+    wireEvents {} (.slice (.int .u64)) (.slice [.int 5, .int 9223372036854775808]) =
+      [.arrStart 2 BT.string, .str [53],
+       .str [57, 50, 50, 51, 51, 55, 50, 48, 51, 54, 56, 53, 52, 55, 55, 53, 56, 48, 56], .arrEnd] ∧
+    (pipe {} (.slice (.int .u64)) (.slice [.int 5, .int 9223372036854775808])).isSome = false :=
+  SF.Props.FuUbj.slice_one_big_element_refused 
+
+/-- non-vacuity: MinInt64 and `uint16(60000)` (which travels as an int32) through the whole pipe, kernel-evaluated -/
+example :
+    (match SF.Props.FuUbj.pipe {} (.int .i64) (.int (-9223372036854775808)) with | some (.int .i64 (-9223372036854775808)) => true | _ => false) = true ∧
+    (match SF.Props.FuUbj.pipe {} (.int .u16) (.int 60000) with | some (.int .u16 60000) => true | _ => false) = true := by
+  decide +kernel
+
+end SF.PropsFuUbj.C11
+
+
+/-! ## C11 through the JSON path: Fold → JSON encoder → bytes → JSON parser → Unfolder, float-free scalars (every
+integer kind over its whole range incl. MaxUint64 and MinInt64, bool, string: arbitrary bytes modulo the encoder's
+UTF-8 sanitising, valid UTF-8 exactly), for every json.Visitor option setting with a fresh writer.  No side condition.
+Proof files SF/Proofs/FuJson{Codec,Run,Top}.lean. -/
+namespace SF.PropsFuJson.C11
+open SF SF.Gotype SF.Gotype.Fold SF.FoldProofs SF.FuId SF.FuJson SF.Props.FuJson
+open SF.Json
+open SF.Json.Enc (intLit strToken sanitize validUtf8)
+open SF.Unf (Ctx newUnfolder setTarget)
+open SF.Ops.Unf (evToUEv)
+open SF.Ops.Fu (feed agreeF)
+
+/-- STAGE 1 — every integer kind `k` (int8 … int64, int, uint8 … uint64, uint, byte), every value of it
+(`hasPrim (.num k) v`: `v = .int x` with `x` in the range of `k`). -/
+theorem fold_json_unfold_int (o : FoldOpts) (hfail : o.failAt = none) (e : Enc.Enc) (hw : e.w = {})
+    (ha : e.inArray.current = false) (k : NumKind) (v : GoVal) (hv : hasPrim (.num k) v = true) :
+    ∃ ut c0 c1 s pr,
+      Unf.Tr.trType (.int k) = some ut ∧
+      setTarget Unf.Tr.fuTable ut (Unf.zero Unf.Tr.fuTable ut) newUnfolder = .ok c0 ∧
+      (impl o (.int k) v).res = .ok ∧
+      Enc.run e (impl o (.int k) v).evs = (s, none, .ok) ∧ s.w.out = intLit (getI v) ∧ s.w.out ≠ [] ∧
+      Parse.writeChunks {} [s.w.out] = (pr, none) ∧ IdleJ pr ∧
+      SF.Ops.Json.parseEvents [s.w.out] = (Parse.events pr, "ok") ∧
+      Parse.events pr = [.num (jk (getI v)) (getI v)] ∧
+      feed c0 ((Parse.events pr).map fun e => [evToUEv e]) = (c1, none) ∧
+      c1.target = trPrim (.num k) v ∧
+      c1 = { newUnfolder with target := trPrim (.num k) v, env := Unf.Tr.fuTable } ∧
+      back c1.target = v ∧
+      agreeF "json" 1000 (.int k) v (back c1.target) = true :=
+  SF.Props.FuJson.fold_json_unfold_int o hfail e hw ha k v hv
+
+/-- STAGE 2a — bool -/
+theorem fold_json_unfold_bool (o : FoldOpts) (hfail : o.failAt = none) (e : Enc.Enc) (hw : e.w = {})
+    (ha : e.inArray.current = false) (v : GoVal) (hv : hasPrim .bool v = true) :
+    ∃ ut c0 c1 s pr,
+      Unf.Tr.trType .bool = some ut ∧
+      setTarget Unf.Tr.fuTable ut (Unf.zero Unf.Tr.fuTable ut) newUnfolder = .ok c0 ∧
+      (impl o .bool v).res = .ok ∧
+      Enc.run e (impl o .bool v).evs = (s, none, .ok) ∧
+      s.w.out = (if getB v then [0x74, 0x72, 0x75, 0x65] else [0x66, 0x61, 0x6c, 0x73, 0x65]) ∧ s.w.out ≠ [] ∧
+      Parse.writeChunks {} [s.w.out] = (pr, none) ∧ IdleJ pr ∧
+      SF.Ops.Json.parseEvents [s.w.out] = (Parse.events pr, "ok") ∧
+      Parse.events pr = [.bool (getB v)] ∧
+      feed c0 ((Parse.events pr).map fun e => [evToUEv e]) = (c1, none) ∧
+      c1.target = trPrim .bool v ∧
+      c1 = { newUnfolder with target := trPrim .bool v, env := Unf.Tr.fuTable } ∧
+      back c1.target = v ∧
+      agreeF "json" 1000 .bool v (back c1.target) = true :=
+  SF.Props.FuJson.fold_json_unfold_bool o hfail e hw ha v hv
+
+/-- STAGE 2b — string, ARBITRARY bytes: the target holds `sanitize s` (each byte outside a well-formed
+UTF-8 sequence ↦ U+FFFD, the encoder's documented replacement); for VALID UTF-8 that is `s` itself, the
+value comes back exactly.  `agreeF "json"` (which compares modulo the oracle's `fixUtf8`) holds for
+every string. -/
+theorem fold_json_unfold_string (o : FoldOpts) (hfail : o.failAt = none) (e : Enc.Enc) (hw : e.w = {})
+    (ha : e.inArray.current = false) (v : GoVal) (hv : hasPrim .string v = true) :
+    ∃ ut c0 c1 s pr,
+      Unf.Tr.trType .string = some ut ∧
+      setTarget Unf.Tr.fuTable ut (Unf.zero Unf.Tr.fuTable ut) newUnfolder = .ok c0 ∧
+      (impl o .string v).res = .ok ∧
+      Enc.run e (impl o .string v).evs = (s, none, .ok) ∧
+      s.w.out = strToken e.escapeHTML (getS v) ∧ s.w.out ≠ [] ∧
+      Parse.writeChunks {} [s.w.out] = (pr, none) ∧ IdleJ pr ∧
+      SF.Ops.Json.parseEvents [s.w.out] = (Parse.events pr, "ok") ∧
+      Parse.events pr = [.str (sanitize (getS v))] ∧
+      feed c0 ((Parse.events pr).map fun e => [evToUEv e]) = (c1, none) ∧
+      c1.target = .str (sanitize (getS v)) ∧
+      c1 = { newUnfolder with target := .str (sanitize (getS v)), env := Unf.Tr.fuTable } ∧
+      back c1.target = .str (sanitize (getS v)) ∧
+      SF.Ops.Fu.fixU (getS v) = sanitize (getS v) ∧
+      (validUtf8 (getS v) = true → c1.target = trPrim .string v ∧ back c1.target = v) ∧
+      agreeF "json" 1000 .string v (back c1.target) = true :=
+  SF.Props.FuJson.fold_json_unfold_string o hfail e hw ha v hv
+
+/-- the visitor `Fu.model` uses satisfies the fresh-encoder hypotheses -/
+example : SF.Ops.Json.visitorOf "" = fuEnc ∧ fuEnc.w = {} ∧ fuEnc.inArray.current = false :=
+  ⟨fuEnc_eq, fuEnc_fresh.1, fuEnc_fresh.2⟩
+
+end SF.PropsFuJson.C11
